@@ -9,21 +9,28 @@ Import ListNotations.
 Local Open Scope string_scope.
 
 (* ---------- structural ties ---------- *)
-Lemma tie_idl_basic_atoms : f_idl_basic_atoms = idl_basic_names \/ f_idl_basic_atoms = ["int8"; "uint8"; "int16"; "uint16"; "int32"; "uint32"; "int64"; "uint64"; "float32"; "float64"; "bool"; "str"; "obj"; "any"; "unknown"].
-Proof. (left; reflexivity) || (right; reflexivity). Qed.
+Lemma tie_idl_basic_atoms : f_idl_basic_atoms = idl_basic_names \/ f_idl_basic_atoms = ["int8"; "uint8"; "int16"; "uint16"; "int32"; "uint32"; "int64"; "uint64"; "float32"; "float64"; "bool"; "str"; "obj"; "any"; "unknown"] \/
+  f_idl_basic_atoms = (idl_basic_names ++ ["nothing"])%list.
+Proof. solve [left; reflexivity | right; left; reflexivity | right; right; reflexivity]. Qed.
 (* basicType(): atoms matching a prefix (pinned) or Token(name+`\b`) in a loop over the names (design/C18.fix.keyword_prefix_struct_name.diff) *)
 Lemma tie_idl_basicType_text : f_idl_basicType_text =
   "func basicType() parsec.Parser { return parsec.OrdChoice(nodifyBasicType, parsec.Atom("""", """"), parsec.Atom("""", """"), parsec.Atom("""", """"), parsec.Atom("""", """"), parsec.Atom("""", """"), parsec.Atom("""", """"), parsec.Atom("""", """"), parsec.Atom("""", """"), parsec.Atom("""", """"), parsec.Atom("""", """"), parsec.Atom("""", """"), parsec.Atom("""", """"), parsec.Atom("""", """"), parsec.Atom("""", """"), parsec.Atom("""", """"), parsec.Atom("""", """"), parsec.Atom("""", """")) }"%string \/
   f_idl_basicType_text =
-  "func basicType() parsec.Parser { names := []string{ """", """", """", """", """", """", """", """", """", """", """", """", """", """", """", } parsers := make([]interface{}, len(names)) for i, name := range names { parsers[i] = parsec.Token(name+"""", """") } return parsec.OrdChoice(nodifyBasicType, parsers...) }"%string.
-Proof. (left; reflexivity) || (right; reflexivity). Qed.
+  "func basicType() parsec.Parser { names := []string{ """", """", """", """", """", """", """", """", """", """", """", """", """", """", """", } parsers := make([]interface{}, len(names)) for i, name := range names { parsers[i] = parsec.Token(name+"""", """") } return parsec.OrdChoice(nodifyBasicType, parsers...) }"%string \/
+  f_idl_basicType_text =
+  "func basicType() parsec.Parser { return parsec.OrdChoice(nodifyBasicType, parsec.Atom("""", """"), parsec.Atom("""", """"), parsec.Atom("""", """"), parsec.Atom("""", """"), parsec.Atom("""", """"), parsec.Atom("""", """"), parsec.Atom("""", """"), parsec.Atom("""", """"), parsec.Atom("""", """"), parsec.Atom("""", """"), parsec.Atom("""", """"), parsec.Atom("""", """"), parsec.Atom("""", """"), parsec.Atom("""", """"), parsec.Atom("""", """"), parsec.Atom("""", """"), parsec.Atom("""", """"), parsec.Atom("""", """")) }"%string.
+Proof. solve [left; reflexivity | right; left; reflexivity | right; right; reflexivity]. Qed.
 
 (* every name nodifyBasicType switches on is mapped by the model, to the scalar with that IDL name *)
-Lemma tie_idl_basic_table :
-  forallb (fun k => match scalar_of_idl k with Some s => String.eqb (scalar_idl s) k | None => false end)
-          (removelast (tl f_idl_nodifyBasicType_lits)) = true /\
-  forallb (fun k => existsb (String.eqb k) (removelast (tl f_idl_nodifyBasicType_lits))) idl_basic_names = true.
-Proof. split; reflexivity. Qed.
+(* (with "nothing" -> void in the source of design/C18.fix.empty_tuple_or_void_in_container.diff) *)
+Definition void_cfg (b : bool) : icfg := {| c_guard := false; c_word := false; c_void := b; c_uid0 := false |}.
+Definition basic_table_ok (b : bool) : bool :=
+  forallb (fun k => match scalar_of_idl_g (void_cfg b) k with Some s => String.eqb (scalar_idl s) k | None => false end)
+          (removelast (tl f_idl_nodifyBasicType_lits)) &&
+  forallb (fun k => existsb (String.eqb k) (removelast (tl f_idl_nodifyBasicType_lits))) (idl_basic_names_g (void_cfg b)) &&
+  forallb (fun k => existsb (String.eqb k) (idl_basic_names_g (void_cfg b))) (removelast (tl f_idl_nodifyBasicType_lits)).
+Lemma tie_idl_basic_table : basic_table_ok false = true \/ basic_table_ok true = true.
+Proof. (left; reflexivity) || (right; reflexivity). Qed.
 
 Fixpoint sprintf (f : string) (args : list string) : string :=
   match f with
@@ -78,16 +85,20 @@ Proof. reflexivity. Qed.
 Lemma tie_idl_basicType : f_idl_basicType =
   "OrdChoice(nodifyBasicType atom:int8 atom:uint8 atom:int16 atom:uint16 atom:int32 atom:uint32 atom:int64 atom:uint64 atom:float32 atom:float64 atom:int64 atom:uint64 atom:bool atom:str atom:obj atom:any atom:unknown)"%string \/
   f_idl_basicType =
-  "OrdChoice(nodifyBasicType parsers)"%string.
-Proof. (left; reflexivity) || (right; reflexivity). Qed.
+  "OrdChoice(nodifyBasicType parsers)"%string \/
+  f_idl_basicType =
+  "OrdChoice(nodifyBasicType atom:int8 atom:uint8 atom:int16 atom:uint16 atom:int32 atom:uint32 atom:int64 atom:uint64 atom:float32 atom:float64 atom:int64 atom:uint64 atom:bool atom:str atom:obj atom:any atom:unknown atom:nothing)"%string.
+Proof. solve [left; reflexivity | right; reflexivity | right; left; reflexivity | right; right; reflexivity | right; right; left; reflexivity | right; right; right; reflexivity]. Qed.
 
 Lemma tie_idl_mapType : f_idl_mapType =
   "And(nodifyMap atom:Map< ctx.typeParser atom:, ctx.typeParser atom:>)"%string.
 Proof. reflexivity. Qed.
 
 Lemma tie_idl_tupleType : f_idl_tupleType =
-  "And(nodifyTuple atom:Tuple< Many(nodifyList ctx.typeParser atom:,) atom:>)"%string.
-Proof. reflexivity. Qed.
+  "And(nodifyTuple atom:Tuple< Many(nodifyList ctx.typeParser atom:,) atom:>)"%string \/
+  f_idl_tupleType =
+  "And(nodifyTuple atom:Tuple< Kleene(nodifyList ctx.typeParser atom:,) atom:>)"%string.
+Proof. solve [left; reflexivity | right; reflexivity | right; left; reflexivity | right; right; reflexivity | right; right; left; reflexivity | right; right; right; reflexivity]. Qed.
 
 Lemma tie_idl_vecType : f_idl_vecType =
   "And(nodifyVec atom:Vec< ctx.typeParser atom:>)"%string.
